@@ -24,7 +24,8 @@ class Task(object):
     """one symbolic obligation: harness text + entry + judge"""
 
     def __init__(s, tid, text, entry, judge=None, opts=None, desc='', reach=(), native_judge=None,
-                 expect_native='judge', bounds=''):
+                 expect_native='judge', bounds='', kinds=None):
+        s.kinds = kinds
         s.tid = tid
         s.text = text
         s.entry = entry
@@ -99,7 +100,7 @@ def write_inputs(path, inputs):
             f.write('%s %d\n' % (re.sub(r'\s', '_', n), v))
 
 
-def native_run(text, entry, inputs, timeout=30, san=True):
+def native_run(text, entry, inputs, timeout=30, san=True, env_extra=None):
     """-> dict(rc, outs, notes, asserts, stdout, stderr, timeout)"""
     exe = build.native_harness(text, san=san, defs=['-DVP_ENTRY=' + entry])
     os.makedirs(REPLAY, exist_ok=True)
@@ -107,6 +108,8 @@ def native_run(text, entry, inputs, timeout=30, san=True):
     write_inputs(inp, inputs)
     env = dict(os.environ, VP_INPUTS=inp, ASAN_OPTIONS='detect_leaks=1:abort_on_error=0:exitcode=99',
                UBSAN_OPTIONS='print_stacktrace=1:halt_on_error=1:exitcode=98')
+    if env_extra:
+        env.update(env_extra)
     try:
         r = subprocess.run([exe], stdout=subprocess.PIPE, stderr=subprocess.PIPE, text=True, timeout=timeout, env=env,
                            errors='replace')
@@ -136,8 +139,32 @@ def native_run(text, entry, inputs, timeout=30, san=True):
 
 def native_confirm(task, viol):
     """replay one counterexample against the real build -> (reproduced?, detail)"""
-    nr = native_run(task.text, task.entry, viol['inputs'], timeout=task.opts.get('native_timeout', 30))
     kind = viol['kind']
+    if kind == 'uninit_output':
+        a = native_run(task.text, task.entry, viol['inputs'], env_extra={'VP_POISON': '0x00'})
+        b = native_run(task.text, task.entry, viol['inputs'], env_extra={'VP_POISON': '0xA5'})
+        oa = [o for o in a['outs'] if o[0].startswith('bytes')]
+        ob = [o for o in b['outs'] if o[0].startswith('bytes')]
+        if oa != ob:
+            return True, 'emitted bytes differ between heap poison 0x00 and 0xA5: %s vs %s' % (
+                bytes(oa[0][1]).hex()[:160] if oa else '', bytes(ob[0][1]).hex()[:160] if ob else '')
+        return False, 'outputs identical under two heap poisons'
+    if kind == 'stale_dependence':
+        m = re.search(r'field "([^"]+)"', viol['msg'])
+        fld = m.group(1) if m else ''
+        base = native_run(task.text, task.entry, viol['inputs'])
+        sig0 = (base['rc'], base['outs'], base['notes'])
+        for alt in (0, 1, 0xffffffff, 0x7fffffff, 1000):
+            inp2 = [[n, (alt & ((1 << w) - 1)) if n.startswith('stale:' + fld + '#') else v, w, k]
+                    for n, v, w, k in viol['inputs']]
+            if inp2 == [list(x) for x in viol['inputs']]:
+                continue
+            r2 = native_run(task.text, task.entry, inp2)
+            if (r2['rc'], r2['outs'], r2['notes']) != sig0:
+                return True, 'native behaviour changes when only the stale field %s is changed to %d (rc %s -> %s)' % (
+                    fld, alt, base['rc'], r2['rc'])
+        return False, 'native behaviour independent of the stale field'
+    nr = native_run(task.text, task.entry, viol['inputs'], timeout=task.opts.get('native_timeout', 30))
     if kind in ('memory', 'uncaught_exception', 'terminate', 'trap', 'unreachable'):
         bad = nr['rc'] != 0 or not nr['done']
         return bad, 'native rc=%s %s' % (nr['rc'], nr['stderr'][-600:].replace('\n', ' | '))
@@ -277,6 +304,8 @@ def run_property(pid, tasks, tier, seed, meta):
                 broken.append('%s: vacuity witness "%s" not reached on any path' % (t.tid, tag))
         seen = set()
         for v in r['violations']:
+            if t.kinds is not None and v['kind'] not in t.kinds:
+                continue
             k = norm_key(t.tid, v)
             if k in seen:
                 continue
